@@ -214,8 +214,14 @@ def normal_pred(p):
 
 
 def digits_safe(t):
-    """`\\d` agrees with the ASCII model: no digit outside 0-9"""
-    return all(not c.isdigit() or c in "0123456789" for c in t)
+    """`\\d` agrees with the ASCII model where it matters: no non-ASCII digit between a `<` and the next `>`
+    (the only place where the lexer's LNK class looks at digits)"""
+    return all(not c.isdigit() or c in "0123456789" for m in re.findall(r"<[^>]*>?", t) for c in m)
+
+
+def islower_agree(rel):
+    """str.islower() agrees with the ASCII model (some a-z, no A-Z)"""
+    return rel.islower() == (any("a" <= c <= "z" for c in rel) and not any("A" <= c <= "Z" for c in rel))
 
 
 def lnk_kind(l):
@@ -272,11 +278,34 @@ def lex_ok(d):
 
 
 def case_safe_sd(d):
+    """SimpleDMRS reads names with .upper() and values with .lower(): Python agrees with the ASCII model"""
     for n in d.nodes:
         for k, v in n.properties.items():
-            if not ascii_case_safe(k) or not lower_safe(v):
+            if not upper_safe(k) or not lower_safe(v):
                 return False
     return True
+
+
+def case_guard(c, d):
+    """None, or the reason why Python's case mapping may differ from the ASCII model for codec `c` on `d`"""
+    if c == "j":
+        return None                      # DMRS-JSON maps no case at all
+    if c == "x":
+        for n in d.nodes:
+            if not lower_safe(n.predicate) or (n.type is not None and not lower_safe(n.type)):
+                return "non-ASCII case mapping"
+            if any(not ascii_case_safe(k) or not lower_safe(v) for k, v in n.properties.items()):
+                return "non-ASCII case mapping"
+            if set(n.predicate) & BAD_CHARS:
+                return "control characters in a predicate"
+        return None
+    for n in d.nodes:                    # PENMAN: names lower then upper, roles upper, str.islower on relations
+        if any(not ascii_case_safe(k) for k in n.properties):
+            return "non-ASCII case mapping"
+    for l in d.links:
+        if l.role is not None and (not upper_safe(l.role) or not islower_agree(l.role.upper() + "-" + str(l.post))):
+            return "non-ASCII case mapping"
+    return None
 
 
 def in_domain(codec, d):
@@ -635,6 +664,19 @@ def witnesses():
     w.append(("disconnected", dmrs_j(10000, None, [node_j(10000, "a", "e"), node_j(10001, "b", "x"), node_j(10002, "c", "x")],
                                      [link_j(10001, 10002, "ARG1", "NEQ")])))
     w.append(("empty", dmrs_j(None, None, [], [])))
+    # corners that independent seeded changes have hit (kept deterministic)
+    w.append(("hyphen-roles", dmrs_j(10000, 10000, [node_j(10000, "_and_c", "e", lnk=["c", 0, 3]), node_j(10001, "_a_v_1", "e", lnk=["c", 4, 5]),
+                                                    node_j(10002, "_b_v_1", "e", lnk=["c", 6, 7])],
+                                     [link_j(10000, 10001, "L-INDEX", "NEQ"), link_j(10000, 10002, "R-INDEX", "NEQ"),
+                                      link_j(10000, 10001, "L-HNDL", "H"), link_j(10000, 10002, "R-HNDL", "HEQ")])))
+    w.append(("zero-width-spans", dmrs_j(10000, 10000, [node_j(10000, "_x_n_1", "x", [("NUM", "sg")], lnk=["c", 4, 4]),
+                                                        node_j(10001, "udef_q", None, lnk=["c", 0, 0])],
+                                         [link_j(10001, 10000, "RSTR", "H")], lnk=["c", 4, 4], surface="")))
+    w.append(("index-no-top", dmrs_j(None, 10001, [node_j(10000, "_a_q", None), node_j(10001, "_b_n_1", "x")],
+                                     [link_j(10000, 10001, "RSTR", "H")])))
+    w.append(("u-props-and-untyped-props", dmrs_j(10000, 10001, [node_j(10000, "_a_n_1", "u", [("NUM", "pl"), ("IND", "+")], lnk=["c", 0, 1]),
+                                                                 node_j(10001, "_b_n_1", None, [("PERS", "3")], carg="c")],
+                                                  [link_j(10000, 10001, "ARG1", "NEQ")])))
     return w
 
 
@@ -1099,89 +1141,146 @@ class C02(Check):
                 "single": case["single"]}
 
     def model_compare(self, case, expected_, answer):
+        """Field-by-field comparison of the model's answer with the implementation.  Every sub-comparison is
+        counted in `self.tie` (evidence field `tie`): `<field>:compared`, `<field>:skipped:<guard>` when a guard
+        says the model does not describe this input (named guard), `<field>:unmodelled` when the model itself
+        answers `unmodelled`.  An `unmodelled` answer, or an implementation-side XML ParseError, on a case INSIDE
+        the format's domain (`in_domain`) is a disagreement, not an agreement."""
         k = case["kind"]
+        tie = self.tie
+
+        def note(field, what):
+            key = "%s:%s" % (field, what)
+            tie[key] = tie.get(key, 0) + 1
 
         def unmodelled(x):
             return isinstance(x, dict) and x.get("err") == "unmodelled"
 
-        def cmp(path, a, b):
-            if unmodelled(b) or (isinstance(a, dict) and a.get("err") == "ParseError"):
+        def cmp(path, field, a, b, indomain):
+            if unmodelled(b):
+                note(field, "unmodelled")
+                if indomain:
+                    return {"at": path, "expected_from_impl": a, "model": b,
+                            "why": "the model answers 'unmodelled' on a case inside the format's domain"}
                 return None
+            if isinstance(a, dict) and a.get("err") == "ParseError":
+                note(field, "skipped:implementation ParseError")
+                if indomain:
+                    return {"at": path, "expected_from_impl": a, "model": b,
+                            "why": "xml.etree rejects the encoder's output on a case inside the format's domain"}
+                return None
+            note(field, "compared")
             if canon(a) != canon(b):
                 return {"at": path, "expected_from_impl": a, "model": b}
             return None
         if k == "pred":
             p = uncps(case["p"])
-            if not lower_safe(p) or (set(p) & BAD_CHARS):
+            if not lower_safe(p):
+                note("pred", "skipped:non-ASCII case mapping")
+                return None
+            if set(p) & BAD_CHARS:
+                note("pred", "skipped:control characters")
                 return None
             for f in ("normalize", "is_surface", "enc", "dec"):
-                r = cmp(f, expected_[f], answer[f])
+                r = cmp(f, "pred." + f, expected_[f], answer[f], True)
                 if r:
                     return r
             return None
         if k == "lex":
             if not digits_safe(uncps(case["text"])):
+                note("lex", "skipped:non-ASCII digits")
                 return None
-            return cmp("lex", expected_, answer)
+            return cmp("lex", "lex", expected_, answer, True)
         if k == "sd_dec":
-            if any(not ascii_case_safe(uncps(t[1])) for t in lex(uncps(case["text"]))):
+            tk = lex(uncps(case["text"]))
+            risky = [uncps(tk[i - 1][1]) for i in range(1, len(tk)) if tk[i][0] == "EQUALS"] + \
+                    [uncps(tk[i + 1][1]) for i in range(len(tk) - 1) if tk[i][0] == "EQUALS"]
+            if any(not (upper_safe(x) and lower_safe(x)) for x in risky) or not digits_safe(uncps(case["text"])):
+                note("sd_dec", "skipped:non-ASCII case mapping")
                 return None
-            return cmp("sd_dec", expected_, answer)
+            return cmp("sd_dec", "sd_dec", expected_, answer, True)
         ds = [build(dj) for dj in case["ds"]]
-        single = case["single"]
-        r = cmp("ctor", expected_["ctor"], answer["ctor"])
+        r = cmp("ctor", "ctor", expected_["ctor"], answer["ctor"], True)
         if r:
             return r
-        r = cmp("sd.text", expected_["sd"]["text"], answer["sd"]["text"])
+        r = cmp("sd.text", "sd.text", expected_["sd"]["text"], answer["sd"]["text"], True)
         if r:
             return r
-        if all(lex_ok(d) and case_safe_sd(d) for d in ds) and expected_["sd"]["toks"] is not None:
+        sd_dom = all(in_domain("sd", d) for d in ds)
+        guard = None
+        if not all(lex_ok(d) for d in ds) or expected_["sd"]["toks"] is None:
+            guard = "outside the lexical domain"
+        elif not all(case_safe_sd(d) for d in ds):
+            guard = "non-ASCII case mapping"
+        if guard is None:
             for f in ("toks", "dec"):
-                r = cmp("sd." + f, expected_["sd"][f], answer["sd"][f])
+                r = cmp("sd." + f, "sd." + f, expected_["sd"][f], answer["sd"][f], sd_dom)
                 if r:
                     return r
             # the model's single-line layout of its token list is the text the real encoder writes
             if all(n.type != "" for d in ds for n in d.nodes) and all(d.identifier != "" for d in ds):
-                r = cmp("sd.render", expected_["sd"]["flat"], answer["sd"]["render"])
+                r = cmp("sd.render", "sd.render", expected_["sd"]["flat"], answer["sd"]["render"], sd_dom)
                 if r:
                     return r
                 if case["indent"] is not None and isinstance(expected_["sd"]["text"], list):
-                    r = cmp("sd.renderindent", expected_["sd"]["text"], answer["sd"]["renderindent"])
+                    r = cmp("sd.renderindent", "sd.renderindent", expected_["sd"]["text"], answer["sd"]["renderindent"], sd_dom)
                     if r:
                         return r
+            else:
+                note("sd.render", "skipped:empty type or identifier")
+        else:
+            for f in ("toks", "dec", "render"):
+                note("sd." + f, "skipped:" + guard)
         # the character-level lexer model on the real texts (any text: inside or outside the lexical domain)
         flat = uncps(expected_["sd"]["flat"])
         if digits_safe(flat):
-            r = cmp("sd.lexflat", expected_["sd"]["lexflat"], answer["sd"]["lexflat"])
+            r = cmp("sd.lexflat", "sd.lexflat", expected_["sd"]["lexflat"], answer["sd"]["lexflat"], True)
             if r:
                 return r
             if isinstance(expected_["sd"]["text"], list) and digits_safe(uncps(expected_["sd"]["text"])):
-                r = cmp("sd.lexindent", expected_["sd"]["lexindent"], answer["sd"]["lexindent"])
+                r = cmp("sd.lexindent", "sd.lexindent", expected_["sd"]["lexindent"], answer["sd"]["lexindent"], True)
                 if r:
                     return r
+            else:
+                note("sd.lexindent", "skipped:encode raised or non-ASCII digits")
             ntok = len(expected_["sd"]["lexflat"].get("ok", []))
-            if all(case_safe_sd(d) for d in ds) and ntok < 1000 and \
-                    (single or "ok" in expected_["sd"]["lexflat"] or True):
-                r = cmp("sd.dectext", expected_["sd"]["dec"], answer["sd"]["dectext"])
+            if not all(case_safe_sd(d) for d in ds):
+                note("sd.dectext", "skipped:non-ASCII case mapping")
+            elif ntok >= 1000:
+                note("sd.dectext", "skipped:1000 tokens or more (lazy lexer)")
+            else:
+                r = cmp("sd.dectext", "sd.dectext", expected_["sd"]["dec"], answer["sd"]["dectext"], sd_dom)
                 if r:
                     return r
+        else:
+            for f in ("lexflat", "lexindent", "dectext"):
+                note("sd." + f, "skipped:non-ASCII digits")
         for c in ("x", "j", "p"):
             for i, d in enumerate(ds):
-                safe = all(lower_safe(n.predicate) and all(ascii_case_safe(a) and lower_safe(b)
-                                                           for a, b in n.properties.items())
-                           and (n.type is None or lower_safe(n.type)) for n in d.nodes) \
-                    and (c != "p" or all((l.role is None or ascii_case_safe(l.role))
-                                         and (l.post is None or ascii_case_safe(l.post)) for l in d.links))
-                if not safe or any(set(n.predicate) & BAD_CHARS for n in d.nodes):
+                guard = case_guard(c, d)
+                if guard is not None:
+                    note(c + ".enc", "skipped:" + guard)
+                    note(c + ".dec", "skipped:" + guard)
                     continue
+                dom = in_domain(c, d)
                 for f in ("enc", "dec"):
-                    r = cmp("%s[%d].%s" % (c, i, f), expected_[c][i][f], answer[c][i][f])
+                    r = cmp("%s[%d].%s" % (c, i, f), "%s.%s" % (c, f), expected_[c][i][f], answer[c][i][f], dom)
                     if r:
                         return r
         return None
 
+    def extra_evidence(self):
+        tie = dict(sorted(self.tie.items()))
+        return {"tie": tie,
+                "tie_totals": {"compared": sum(v for k_, v in tie.items() if k_.endswith(":compared")),
+                               "skipped": sum(v for k_, v in tie.items() if ":skipped:" in k_),
+                               "unmodelled": sum(v for k_, v in tie.items() if k_.endswith(":unmodelled"))}}
+
     # ---- direct oracle (public API only, independent of the model)
+    tie = {}
+
     def setup(self):
+        self.tie = {}
         self.tmp = tempfile.mkdtemp(prefix="c02-", dir="/var/tmp")
 
     def teardown(self):
